@@ -158,6 +158,26 @@ class Func:
         return lines
 
 
+FIELD_ART = {"Zahl": "der", "Kommazahl": "der", "Text": "dem", "Wahrheitswert": "dem", "Zahlen Liste": "der", "Punkt": "dem", "Kreis": "dem", "Marke": "der",
+             "Hausnummer": "der", "Wert": "dem"}
+
+
+class Ctor(Func):
+    """a Kombination declared in main: its constructor aliases live in the same alias population as the function aliases
+    (same keys: words by spelling, placeholders by the field's type); `name` is the name of the Kombination"""
+    __slots__ = ()
+
+    def text(self, public, drop=()):
+        als = [a for a in self.aliases if a not in drop]
+        lines = ["Wir nennen die Kombination aus"]
+        for n, pt in self.params:
+            lines.append("\t%s %s %s," % (FIELD_ART[pt.surface], pt.surface, n))
+        lines.append("einen %s, und erstellen sie so:" % self.name)
+        for i, a in enumerate(als):
+            lines.append('\t"%s"%s' % (a, " oder" if i + 1 < len(als) else ""))
+        return lines
+
+
 class Module:
     __slots__ = ("name", "punkt", "marke", "wert", "funcs")
 
@@ -293,7 +313,10 @@ class Scenario:
             else:
                 n += 1
                 pool = gen_types_for(rng, "main", visible, self.main_types)
-                self.items.append(("func", gen_func(rng, "f%d_main" % n, "main", pool, n, bias)))
+                f = gen_func(rng, "f%d_main" % n, "main", pool, n, bias)
+                if f.params and not any(pt.ref for _, pt in f.params) and rng.random() < 0.4:
+                    f = Ctor("Bund%d" % n, "main", f.params, f.aliases, n)       # the same aliases as constructors of a Kombination
+                self.items.append(("func", f))
 
     def permuted(self, rng):
         """same population, another order of main's items (functions that name the whole-imported module's types stay after that import)"""
@@ -405,7 +428,7 @@ class Scenario:
             for k, f, a in alive:
                 n += 1
                 words = [arg_var(dict(f.params)[w[1:-1]].canon) if w.startswith("<") else w for w in a.split(" ")]
-                lines.append("Die Zahl r%d ist %s." % (n, " ".join(words)))
+                lines.append(("Der %s r%d ist %s." % (f.name, n, " ".join(words))) if isinstance(f, Ctor) else ("Die Zahl r%d ist %s." % (n, " ".join(words))))
                 call_lines.append((len(lines), f, a, k))
         main = os.path.join(d, "main.ddp")
         vlib.write_file(main, "\n".join(lines) + "\n")
@@ -417,7 +440,7 @@ class Scenario:
             if kind_ == "import":
                 out.append("import %s%s: %s" % (x.name, " (whole)" if x is self.whole else "", "; ".join("%s %s [%s]" % (f.name, f.aliases, ", ".join(p.surface for _, p in f.params)) for f in x.funcs)))
             else:
-                out.append("func %s %s [%s]" % (x.name, x.aliases, ", ".join(p.surface for _, p in x.params)))
+                out.append("%s %s %s [%s]" % ("Kombination" if isinstance(x, Ctor) else "func", x.name, x.aliases, ", ".join(p.surface for _, p in x.params)))
         return out
 
 
@@ -553,6 +576,14 @@ def judge_scenario(chk, sc, s, tag):
     if errs:
         dg = errs[0]
         on_call = [c for c in call_lines if c[0] == dg["l1"]]
+        skel_n = {}
+        for k_, f_, a_ in alive:
+            skel_n[skeleton(k_)] = skel_n.get(skeleton(k_), 0) + 1
+        if on_call and dg["code"] in (3000, 3001) and any(isinstance(f_, Ctor) for k_, f_, a_ in alive if skeleton(k_) == skeleton(on_call[0][3])) and skel_n[skeleton(on_call[0][3])] > 1:
+            # the same words with another placeholder type / Referenz-ness exist: which one a call with this argument reaches is C09's
+            # business; a constructor and a function differ in their result type, so the typed call line cannot be judged here
+            chk.count("calls_not_judged_constructor_shares_word_pattern")
+            return
         if on_call and dg["file"].endswith("main.ddp"):
             chk.violation(dict(base_sig, law="declared alias is callable", code=dg["code"]), files=files(d2, r2),
                           text="call of alias %r of %s at line %d is rejected: %s" % (on_call[0][2], on_call[0][1].name, dg["l1"], dg["msg"]))
@@ -567,7 +598,7 @@ def judge_scenario(chk, sc, s, tag):
     # the call reaches the declaring function when no other alias in scope has the same word pattern
     by_line = {}
     for c in r2.get("calls") or []:
-        if c["kind"] == "call":
+        if c["kind"] in ("call", "struct"):
             by_line.setdefault(c["l1"], []).append(c["name"])
     skel = {}
     for k, f, a in alive:
@@ -605,6 +636,18 @@ def targeted(rng):
         if dup:
             s.items.append(("func", Func("zeige_dup", "main", [("p", ptype(("k", s.whole.name, "Punkt"), False, "Punkt"))], ["zeige <p>"], 10)))
         out.append(s)
+    # constructor aliases of a Kombination with fields of DIFFERENT types against function aliases with the same words:
+    # same types = duplicate (either order), other types = legal overload that must stay callable
+    Z, T, K = ptype(("p", "Zahl"), False), ptype(("p", "Text"), False), ptype(("p", "Kommazahl"), False)
+    for ctor_types, func_types, ctor_first in (((Z, T), (Z, T), True), ((Z, T), (Z, T), False), ((Z, T), (T, T), True), ((Z, T), (T, T), False),
+                                               ((T, Z), (T, Z), True), ((K, Z), (Z, Z), False), ((Z, T), (Z, Z), True), ((T, K), (T, K), False)):
+        for alias in ("verbinde <a> mit <b>", "zeige <a> <b>"):
+            s = Scenario.__new__(Scenario)
+            s.kind, s.mods, s.whole, s.main_types = "single-file", [], None, set()
+            c = Ctor("Bund1", "main", [("a", ctor_types[0]), ("b", ctor_types[1])], [alias], 1)
+            f = Func("f2_main", "main", [("a", func_types[0]), ("b", func_types[1])], [alias], 2)
+            s.items = [("func", c), ("func", f)] if ctor_first else [("func", f), ("func", c)]
+            out.append(s)
     return out
 
 
